@@ -18,8 +18,8 @@ LEVEL_TEXT["C19"] = (
 )
 
 PROPS["C19"] = {
-    "gen": ["Cmplx", "Awgn"],
-    "lean_props": "DspVerif.Props.C19",
+    "gen": ["Cmplx", "Awgn", "StepsBase", "StepsArray", "StepsSnr"],
+    "lean_props": ["DspVerif.Props.C19", "DspVerif.Props.C19Gen"],
     "harness": [{"src": "c19.cpp", "cfg": "rel",
                  "tol": {"awgnR": (0.0, 0.0), "awgnC": (0.0, 0.0), "stream": (0.0, 0.0), "streamD": (0.0, 0.0), "harm": (1e-13, 0.0),
                          "pgram": (1e-11, 0.0), "measT": (1e-9, 0.0)}}],
